@@ -12,6 +12,47 @@ def lines(parts):
     return "\n".join(parts) + "\n"
 
 
+def rev_program(r):
+    """a maparr / mapmap row with the calls of the pipeline written against their
+    dependencies (consumer, mapped producer, generator): the compiler has to order
+    them itself before it can type the references"""
+    s, t, kind = r["s"], r["t"], r["kind"]
+    coll = "int[]" if kind == "maparr" else "map<int>"
+    L = DECLS.rstrip("\n").split("\n") + [""]
+    L += ["stage G(", "    out %s zs," % coll, "    src comp \"g\",", ")", ""]
+    L += ["stage P(", "    in  int z,", "    out %s v," % ts(s), "    src comp \"p\",", ")", ""]
+    L += ["stage C(", "    in  %s x," % ts(t), "    out int y,", "    src comp \"c\",", ")", ""]
+    L += ["stage X(", "    in  int y,", "    out int w,", "    src comp \"x\",", ")", ""]
+    L += ["pipeline TOP(", "    out int y,", ")", "{", "    call X(", "        y = C.y,", "    )", "", "    call C("]
+    call_line = len(L)
+    L += ["        x = P.v,"]
+    bind_line = len(L)
+    L += ["    )", "", "    map call P(", "        z = split G.zs,", "    )", "", "    call G(", "    )", "",
+          "    return (", "        y = X.w,", "    )", "}", "", "call TOP(", ")"]
+    return lines(L), bind_line, call_line
+
+
+def shorthand_ok(r):
+    """rows for which `x = P` can only mean P's default output"""
+    t = r["t"]
+    return r["kind"] == "ref" and t["m"] == 0 and t["b"] in ("int", "float", "string", "bool", "file", "path", "txt")
+
+
+def shorthand_program(r):
+    """the Martian-3 shorthand: a bare call name bound to a parameter stands for the
+    call's default (unnamed) output"""
+    s, t = r["s"], r["t"]
+    L = DECLS.rstrip("\n").split("\n") + [""]
+    L += ["stage P(", "    out %s," % ts(s), "    src comp \"p\",", ")", ""]
+    L += ["stage C(", "    in  %s x," % ts(t), "    out int y,", "    src comp \"c\",", ")", ""]
+    L += ["pipeline TOP(", "    out int y,", ")", "{", "    call P(", "    )", "", "    call C("]
+    call_line = len(L)
+    L += ["        x = P,"]
+    bind_line = len(L)
+    L += ["    )", "", "    return (", "        y = C.y,", "    )", "}", "", "call TOP(", ")"]
+    return lines(L), bind_line, call_line
+
+
 def ref_program(r):
     """returns (source, line of the offending binding, line of its call)"""
     s, t, kind = r["s"], r["t"], r["kind"]
